@@ -572,7 +572,86 @@ func (m *Machine) strBinop(op token.Token, x, y value) value {
 	panic(engineFault{"strBinop " + op.String()})
 }
 
+// tokEq decides ==/!= on token-table values without forking on the table
+// index: the comparison is the disjunction, over the pairs of table entries
+// that compare equal concretely, of "x is entry i and y is entry j".
+func (m *Machine) tokEq(t types.Type, x, y value) (res value, ok bool) {
+	_, xt := x.(symtok)
+	_, yt := y.(symtok)
+	if !xt && !yt {
+		return nil, false
+	}
+	tab := m.tokTable()
+	type cand struct {
+		cond *smt.Term
+		v    value
+	}
+	cands := func(v value) []cand {
+		st, is := v.(symtok)
+		if !is {
+			return []cand{{m.ctx.True, v}}
+		}
+		var out []cand
+		for i, tv := range tab {
+			out = append(out, cand{m.ctx.Eq(st.idx, m.ctx.BV(uint64(i), tokW)), tv})
+		}
+		return out
+	}
+	staticIface := false
+	if t != nil {
+		_, staticIface = t.Underlying().(*types.Interface)
+	}
+	var disj []*smt.Term
+	for _, cx := range cands(x) {
+		for _, cy := range cands(y) {
+			if cx.cond == m.ctx.False || cy.cond == m.ctx.False {
+				continue
+			}
+			_, xs := cx.v.([]value)
+			_, ys := cy.v.([]value)
+			if staticIface && (xs || ys) {
+				continue // a slice token can never be the operand of an interface comparison
+			}
+			var eq value
+			bad := false
+			func() {
+				defer func() {
+					if r := recover(); r != nil {
+						bad = true
+					}
+				}()
+				eq = m.binop(token.EQL, t, cx.v, cy.v)
+			}()
+			if bad {
+				return nil, false
+			}
+			switch e := eq.(type) {
+			case bool:
+				if e {
+					disj = append(disj, m.ctx.And(cx.cond, cy.cond))
+				}
+			case symv:
+				disj = append(disj, m.ctx.And(cx.cond, cy.cond, e.t))
+			default:
+				return nil, false
+			}
+		}
+	}
+	return mkScalar(m.ctx.Or(disj...), types.Bool), true
+}
+
 func (m *Machine) binop(op token.Token, t types.Type, x, y value) value {
+	if op == token.EQL || op == token.NEQ {
+		if r, ok := m.tokEq(t, x, y); ok {
+			if op == token.EQL {
+				return r
+			}
+			if b, isB := r.(bool); isB {
+				return !b
+			}
+			return mkScalar(m.ctx.Not(r.(symv).t), types.Bool)
+		}
+	}
 	xtok := false
 	if _, ok := x.(symtok); ok {
 		x = m.resolveTok(x)
